@@ -13,13 +13,21 @@
    and the same call issued again succeeds ([C13g_tag_one_off_fault], [C13g_store_one_off_fault]).
    FINDING [C13g_duplicate_store_fault_untags]: when the pid is ALREADY bound to that cid, a
    one-off makedirs failure makes the roll-back remove the existing binding.
-   NOT proved in general (menu only): (F2) when the flock itself fails; (F3) "success => the
-   permanent files are those of the fault-free run"; (F4) for a pid that is already bound, and for
+   (F3'), C13's first clause, SUCCESS => WHOLE EFFECT (FaultSuccess.v): for every call, every ONE-OFF
+   fault and every world with a sorted file map (every reachable one), a call that reports success
+   gives the answer of the fault-free call and leaves the same locks and the same files except
+   deletion markers ([C13g_fault_success_whole_effect], [C13g_fault_success_markers]; non-vacuous:
+   [C13g_swallowed_marker_removal]); for every call other than delete_object / delete_metadata(pid,
+   None), from ANY world and for PERSISTENT faults too, success means the run WAS the fault-free
+   run ([C13g_one_off_success_identical], [C13g_persistent_success_identical]).
+   NOT proved in general (menu only): (F2) when the flock itself fails; (F3') for PERSISTENT
+   faults in delete_object / delete_metadata(pid, None); (F4) for a pid that is already bound, and for
    store_object with a stream source or supplied size / checksum.  For PERSISTENT faults (F4) is false: witness
    [C13g_persistent_fault_defeats_rollback], and the full statement [C13_general_statement] is
    refuted by it ([C13g_statement_false]). *)
-From HS Require Import Base PyVal FS Ops Spec Sched Refine CrashFault Integrity CrashGeneral FaultGeneral.
-From HS Require Bracket.
+From HS Require Import Base PyVal FS Ops Spec Sched Refine CrashFault Integrity CrashGeneral FaultGeneral
+  FaultSuccess.
+From HS Require Bracket Indep.
 
 (* ---------- the fault semantics covered ---------- *)
 
@@ -323,3 +331,74 @@ Example C13g_duplicate_store_fault_untags :
   run_fault (FWait 0 false) w1 (api (CTag 1 7)) = Some (mkWorld [(AObj 7, CData 7 1 1)] [], Exn EOSError).
 Proof. exact duplicate_store_fault_untags. Qed.
 Print Assumptions C13g_duplicate_store_fault_untags.
+
+(* ---------- (F3') success => the whole effect (C13, first clause) ---------- *)
+
+(* every call except the two that remove deletion markers, ANY world, every k: a call that reports
+   success after a ONE-OFF failure ran exactly as the fault-free call (the failure was absorbed:
+   shutil.move survives a one-off failure of rename) — same answer, same world *)
+Theorem C13g_one_off_success_identical :
+  forall (c : call) (w : world) (j : nat) (w' : world) (v : value),
+    match c with CDelete _ | CDelMeta _ None | CDeleteUnfixed _ => False | _ => True end ->
+    run_fault (FWait j false) w (api c) = Some (w', Val v) ->
+    run_seq w (api c) = Some (w', Val v).
+Proof. exact one_off_success_identical. Qed.
+Print Assumptions C13g_one_off_success_identical.
+
+(* the same calls, PERSISTENT faults: success is only reported when the fault was never delivered *)
+Theorem C13g_persistent_success_identical :
+  forall (c : call) (w : world) (j : nat) (w' : world) (v : value),
+    match c with CDelete _ | CDelMeta _ None | CDeleteUnfixed _ => False | _ => True end ->
+    run_fault (FWait j true) w (api c) = Some (w', Val v) ->
+    run_seq w (api c) = Some (w', Val v).
+Proof. exact persistent_success_identical. Qed.
+Print Assumptions C13g_persistent_success_identical.
+
+(* EVERY call, every ONE-OFF fault, every world whose file map is sorted: success => the
+   fault-free call gives the same answer, and the final worlds have the same locks and the same
+   files except deletion markers (a failed removal of a marker is swallowed) *)
+Theorem C13g_fault_success_markers :
+  forall (w : world) (c : call) (k : nat) (w' : world) (v : value),
+    Indep.fsorted (fs w) ->
+    run_fault (FWait k false) w (api c) = Some (w', Val v) ->
+    exists w0 : world, run_seq w (api c) = Some (w0, Val v) /\
+      locks w' = locks w0 /\
+      forall a : addr, (forall x : addr, a <> ADel x) -> lookup a (fs w') = lookup a (fs w0).
+Proof. exact fault_success_markers. Qed.
+Print Assumptions C13g_fault_success_markers.
+
+(* in the vocabulary of the menu checker (CrashFault.val_case_ok / fault_outcome_ok): same answer,
+   same permanent files *)
+Theorem C13g_fault_success_whole_effect :
+  forall (w : world) (c : call) (k : nat) (w' : world) (v : value),
+    Indep.fsorted (fs w) ->
+    run_fault (FWait k false) w (api c) = Some (w', Val v) ->
+    exists w0 : world, run_seq w (api c) = Some (w0, Val v) /\
+      locks w' = locks w0 /\
+      forall a : addr, permanent a = true -> lookup a (fs w') = lookup a (fs w0).
+Proof. exact fault_success_whole_effect. Qed.
+Print Assumptions C13g_fault_success_whole_effect.
+
+(* every store the API builds from the empty store qualifies *)
+Theorem C13g_fault_success_whole_effect_reachable :
+  forall (h : list call) (w : world) (rs : list (outcome value)) (c : call) (k : nat) (w' : world)
+         (v : value),
+    run_history empty_world h = Some (w, rs) ->
+    run_fault (FWait k false) w (api c) = Some (w', Val v) ->
+    exists w0 : world, run_seq w (api c) = Some (w0, Val v) /\
+      locks w' = locks w0 /\
+      forall a : addr, permanent a = true -> lookup a (fs w') = lookup a (fs w0).
+Proof. exact fault_success_whole_effect_reachable. Qed.
+Print Assumptions C13g_fault_success_whole_effect_reachable.
+
+(* non-vacuity: the premise holds with a swallowed failure — delete_object(1), fault site 7 = the
+   removal of the deletion marker of the pid reference: success, the marker stays *)
+Example C13g_swallowed_marker_removal :
+  let w1 := mkWorld [(AObj 7, CData 7 1 1); (APidRef 1, CCid 7); (ACidRef 7, CLines [1])] [] in
+  Indep.fsorted (fs w1) /\
+  (site_op 7 w1 (api (CDelete 1)) = Some (Remove (ADel (APidRef 1)))) /\
+  (run_fault (FWait 7 false) w1 (api (CDelete 1)) =
+     Some (mkWorld [(ADel (APidRef 1), CCid 7)] [], Val VUnit)) /\
+  (run_seq w1 (api (CDelete 1)) = Some (mkWorld [] [], Val VUnit)).
+Proof. exact swallowed_marker_removal. Qed.
+Print Assumptions C13g_swallowed_marker_removal.
